@@ -8,7 +8,7 @@
 use crate::gen::{self, DeepKind, ValueParams, WriteStyle, DEEP_KINDS};
 use crate::monitor::{conclude, conv::drop_value_iter, guard, hex, parallel, show, Config, EvidenceMeta, Report, Tier};
 use crate::oracle::rfc8259::{Opts, Reader};
-use crate::real;
+use crate::real::{self, PErr};
 use crate::rng::Rng;
 use json_syntax::{Parse, Print, Value};
 use serde_json::json;
@@ -136,6 +136,24 @@ fn reentrant_parse(s: &str, o: Opts) -> Result<bool, String> {
 
 fn check_probe(rep: &mut Report, fam: &str, s: &str, o: Opts, want_ok: Option<bool>) {
 	let nchars = s.chars().count();
+	// sources that declare other character lengths (UTF-16, UTF-32, escaped, and zero-length characters)
+	if s.len() <= 256 && (rep.evaluations % 8 == 4 || s.len() <= 6) {
+		let w = real::ALL_WIDTHS[(rep.evaluations as usize / 8) % real::ALL_WIDTHS.len()];
+		for fallible in [false, true] {
+			rep.count("parses_from_declared_length_sources", 1);
+			if let Err(PErr::Panic(p)) = real::parse_widths(s, o, w, fallible) {
+				rep.violation(
+					"C03:panic",
+					format!("[{}] panic while parsing `{}` from a source declaring {:?} character lengths: {}", fam, show(s.as_bytes()), w, p),
+					json!({"sub": "bytes", "input_hex": hex(s.as_bytes()), "options": [o.truncated, o.invalid]}),
+				);
+			}
+		}
+		let zero = guard(|| Value::parse_infallible_with(s.chars().map(|c| decoded_char::DecodedChar::new(c, 0)), real::options(o)).map(|(v, _)| drop_value_iter(v)).is_ok());
+		if let Err(p) = zero {
+			rep.violation("C03:panic", format!("[{}] panic while parsing `{}` from a source of zero-length characters: {}", fam, show(s.as_bytes()), p), json!({"sub": "bytes", "input_hex": hex(s.as_bytes()), "options": [o.truncated, o.invalid]}));
+		}
+	}
 	if s.len() <= 256 && (rep.evaluations % 8 == 0 || s.len() <= 6) {
 		rep.count("parses_from_a_reentrant_source", 1);
 		match (reentrant_parse(s, o), guard(|| Value::parse_str_with(s, real::options(o)).map(|(v, _)| drop_value_iter(v)).is_ok())) {
